@@ -6,6 +6,7 @@ VERIF = os.path.dirname(os.path.dirname(os.path.abspath(__file__)))
 BUILD = os.environ.get('CAT_BUILD', os.path.join(VERIF, 'build'))
 REPO = os.environ.get('CAT_REPO', '/repo')
 CAPS = [1, 2, 3, 8]
+DRV_TAG = os.environ.get('CAT_DRV_TAG', '')      # set per property by ./check so that concurrent checks do not share binaries
 
 RC = dict(ERROR=-1, DATA_OK=0, DATA_NEXT=1, NEXT=2, OK=3, HOLD=4, HOLD_EXIT_OK=5,
           HOLD_EXIT_ERROR=6, LIST=7)
@@ -162,7 +163,7 @@ def build_cdrivers(caps=CAPS, san=False, log=None):
     os.makedirs(BUILD, exist_ok=True)
     procs = []
     for cap in caps:
-        out = os.path.join(BUILD, 'cdriver_%scap%d' % ('san_' if san else '', cap))
+        out = os.path.join(BUILD, 'cdriver_%s%scap%d' % (DRV_TAG, 'san_' if san else '', cap))
         if os.path.exists(out):
             os.remove(out)
         if san:
@@ -252,7 +253,7 @@ def run_exe(exe_for_cap, scns, shards=16, timeout=600):
 
 
 def c_exe(cap, san=False):
-    return os.path.join(BUILD, 'cdriver_%scap%d' % ('san_' if san else '', cap))
+    return os.path.join(BUILD, 'cdriver_%s%scap%d' % (DRV_TAG, 'san_' if san else '', cap))
 
 
 def run_c(scns, san=False, **kw):
